@@ -259,6 +259,7 @@ class RawMeshData:
             nf = len(f)
             for i in range(nf):
                 edge = utils.keyify(f[i], f[(i+1)%nf])
+                if edge[0]==edge[1]: continue # a vertex repeated in a face is not a side (self-loops are dropped anyway)
                 if edge not in edge_set:
                     edge_set.add(edge)
                     self.edges.append(edge)
